@@ -341,6 +341,37 @@ func main() {
 	addBool("compaction_worker_runs_primary_and_backup_until_done", workerOK,
 		"doCompaction runs callCompactionOnFragment on every dmap fragment of the primary and of the backup partition; that function calls f.Compaction() until it answers done")
 
+	// ---- structural facts: the client pipeline (C15)
+	pipeGo := parse("pipeline.go")
+	pipeOK := false
+	if pipeGo != nil {
+		norm := func(n ast.Node) string { return strings.Join(strings.Fields(src(n)), " ") }
+		addC := funcDecl(pipeGo, "DMapPipeline", "addCommand")
+		execP := funcDecl(pipeGo, "DMapPipeline", "execOnPartition")
+		okAdd := addC != nil && strings.Contains(norm(addC.Body), "dp.commands[partID] = append(cmds, cmd)") &&
+			strings.Contains(norm(addC.Body), "return partID, len(dp.commands[partID]) - 1") &&
+			strings.Contains(norm(addC.Body), "partID := hkey % dp.dm.clusterClient.partitionCount")
+		okExec := execP != nil && orderedIn(norm(execP.Body), "commands := dp.commands[partID]",
+			"for _, cmd := range commands { pipe.Do(ctx, cmd.Args()...) }", "result, _ := pipe.Exec(ctx)", "dp.result[partID] = result")
+		futs, reads := 0, 0
+		for _, d := range pipeGo.Decls {
+			fd, ok := d.(*ast.FuncDecl)
+			if !ok || fd.Name.Name != "Result" || fd.Recv == nil {
+				continue
+			}
+			futs++
+			b := norm(fd.Body)
+			// closed first, then "not ready", and the reply read is the one at (partID, index)
+			if orderedIn(b, "case <-f.closedCtx.Done(): return", "case <-f.ctx.Done(): cmd := f.dp.result[f.partID][f.index]", "default: return") &&
+				strings.Count(b, "f.dp.result[") == 1 {
+				reads++
+			}
+		}
+		pipeOK = okAdd && okExec && futs >= 8 && futs == reads
+	}
+	addBool("pipeline_future_reads_its_partition_slot", pipeOK,
+		"DMapPipeline.addCommand appends to the queue of the key's partition and hands out (partition, len-1); execOnPartition sends that queue in order and stores the replies as result[partition]; every Future.Result checks closed, then not-ready, and reads result[partID][index]")
+
 	// ---- structural facts: request guard (C05)
 	handlerGo := parse("internal/server/handler.go")
 	serve := funcDecl(handlerGo, "Handler", "ServeRESP")
